@@ -1,6 +1,6 @@
 """C06 — invalid use yields a truthful documented Err; no panics on caller-supplied scalars."""
 import re
-from . import core, taint
+from . import core, taint, roles as roles_mod
 from .core import hcanon, hshow
 
 EXPLANATION = (
@@ -125,14 +125,16 @@ def check_truthful(ctx, facts, cfg):
         core.PathWalker(mk_visit(fn)).walk_fn(fn)
     ctx.floor(R, 18, len(sites), 'Error construction sites', cfg=cfg)
     per_fn_count = {}
+    RL = roles_mod.roles(facts)
     for (fn, e, conds, env) in sites:
         variant = (e['path'].get('path') or '').split('::')[-1]
-        fields = {f['name']: hcanon(f['e'], env) for f in e['fields']}
-        atoms = core.flatten_conds(conds, env)
+        # private field / parameter names of the work objects are mapped to their role names
+        fields = {f['name']: RL.norm(hcanon(f['e'], env), fn.path) for f in e['fields']}
+        atoms = [(RL.norm(c, fn.path), pol) for c, pol in core.flatten_conds(conds, env)]
         cmps = [x for x in (cmp_atom(c, p) for c, p in atoms) if x]
         per_fn_count[(fn.path, variant)] = per_fn_count.get((fn.path, variant), 0) + 1
         ident = '%s#%s' % (variant, per_fn_count[(fn.path, variant)])
-        err = judge(fn, variant, fields, atoms, cmps, conds, env)
+        err = judge(fn, variant, fields, atoms, cmps, conds, env, RL)
         shown = {k: hshow(v) for k, v in fields.items()}
         if err:
             ctx.violation(R, ident, 'Error::%s built at %s is not truthful: %s (fields %s; governing atoms %s)'
@@ -147,8 +149,9 @@ def lit0(c):
     return c == ('const', 0)
 
 
-def judge(fn, variant, fields, atoms, cmps, conds, env):
-    pnames = fn.param_names()
+def judge(fn, variant, fields, atoms, cmps, conds, env, RL):
+    pm = RL.params.get(fn.path, {})
+    pnames = [pm.get(n, n) for n in fn.param_names()]
 
     def usize_params():
         return [n for i, n in enumerate(pnames) if fn.body.local_ty(i + 1) == 'usize']
@@ -262,9 +265,11 @@ def judge(fn, variant, fields, atoms, cmps, conds, env):
     if variant == 'UnsupportedShardCount':
         o, r = fields.get('original_count'), fields.get('recovery_count')
         up = usize_params()
-        if len(up) < 2 or up[0] != 'original_count' or up[1] != 'recovery_count':
+        if len(up) < 2:
             return 'enclosing fn does not take (original_count, recovery_count) first'
-        if o != ('local', 'original_count') or r != ('local', 'recovery_count'):
+        if fn.reachable and (up[0] != 'original_count' or up[1] != 'recovery_count'):
+            return 'enclosing public fn does not take (original_count, recovery_count) first'
+        if o != ('local', up[0]) or r != ('local', up[1]):
             return 'fields are not the (original_count, recovery_count) parameters in that order'
         # governed by failing support predicate on (o, r) in order ...
         for c, pol in atoms:
@@ -274,7 +279,7 @@ def judge(fn, variant, fields, atoms, cmps, conds, env):
         # ... or this is the decision predicate itself: condition mentions only o, r and constants
         if fn.output and fn.output.startswith('std::result::Result<bool'):
             pos = [c for c, pol in atoms if pol]
-            if pos and leaf_locals(pos[-1]) <= {'original_count', 'recovery_count'}:
+            if pos and leaf_locals(pos[-1]) <= {up[0], up[1]}:
                 return None
         return 'not governed by the failing edge of supports(original_count, recovery_count)'
     return 'unknown Error variant %s: extend the table in engine/rules/c06.py after reading the new site' % variant
